@@ -138,6 +138,23 @@ class C07(CheckBase):
         else:
             scn = gen_session(rng)
             sub = (idx // 6) % 8  # (r == 5 here: three of eight of these cases go to the fixed families below)
+            if sub == 3:
+                # the stop callback of one session is still busy (it awaits something) when the next session of the same
+                # client, set up meanwhile, ends as well: each established session gets its own call
+                d_stop = pick(rng, [3.0, 10.0])
+                scn["on_stop_delay"] = d_stop
+                scn["device"].pop("reply_delay", None)
+                scn["device"].pop("replies", None)
+                login = rng.random() < 0.5
+                scn["actors"] = [{"id": "a0", "at": {"t": 0.0}, "steps": [{"do": "connect", "login": login, "stop_tag": "s1"}, {"do": "sleep", "d": 2.0}, {"do": "connect", "login": login, "stop_tag": "s2"}, {"do": "sleep", "d": 30.0}]}]
+                scn["net"]["connect"] = {a: [{"outcome": "ok", "latency": 0.001}] for a in scn["client"]["addresses"]}
+                scn["events"] = []
+                for nth, dl in ((1, 1.0), (2, pick(rng, [0.5, 1.0]))):
+                    how = pick(rng, ["fin", "rst", "dev_disconnect", "garbage"])
+                    scn = with_cause(scn, how, {"on": "state", "match": {"new": "CONNECTED"}, "nth": nth, "delay": dl}, "pre", rng)
+                scn["end"] = 100.0
+                yield scn
+                return
             if sub == 2:
                 # while the session is live another part of the application calls connect()/start_connection() with ITS stop
                 # callback (or none) and is refused; whatever ends the session later, the callback given when the session was
